@@ -252,6 +252,7 @@ func c08Run(c *c08Case, mc bool, dir string) (rec vtr.Rec) {
 	w.taskStats = make(map[uint64]map[TaskName]*stats.Map)
 	w.slices = make(map[uint64]bigslice.Slice)
 	results := make([]*Result, len(c.Progs))
+	bx := &bigmachineExecutor{invocations: map[uint64]execInvocation{}, invocationDeps: map[uint64]map[uint64]bool{}}
 	for k, p := range c.Progs {
 		p.Dir = fmt.Sprintf("%s/c%d_%v_%d", dir, c.ID, mc, k)
 		if err := os.MkdirAll(p.Dir, 0755); err != nil {
@@ -298,15 +299,26 @@ func c08Run(c *c08Case, mc bool, dir string) (rec vtr.Rec) {
 		// the worker's path: the transported invocation (Result arguments as references, frozen environment),
 		// compiled when the cache files have changed since the driver looked
 		c08CacheFiles(p, true)
+		// (the executor ships the invocation value carried by the tasks it is asked to run: Task.Invocation)
 		tinv := inv
-		tinv.Args = append([]interface{}{}, inv.Args...)
-		for i, a := range tinv.Args {
-			if r, ok := a.(*Result); ok {
-				tinv.Args[i] = invocationRef{r.invIndex}
+		shipped := map[*Task]bool{}
+		for _, t := range tasks {
+			t.all(shipped)
+		}
+		for t := range shipped {
+			if t.Invocation.Index == inv.Index {
+				tinv = t.Invocation
+				break
 			}
 		}
+		// through the executor's own bookkeeping (Result arguments become references; what it stores is what it
+		// encodes for Worker.Compile)
+		if _, err := bx.addInvocation(tinv); err != nil {
+			invs = append(invs, vtr.Rec{"err": "addInvocation: " + err.Error()})
+			return
+		}
 		var b bytes.Buffer
-		if err := gob.NewEncoder(&b).Encode(tinv); err != nil {
+		if err := gob.NewEncoder(&b).Encode(bx.invocations[inv.Index]); err != nil {
 			invs = append(invs, vtr.Rec{"err": "encode: " + err.Error()})
 			return
 		}
